@@ -93,6 +93,7 @@ Definition sqrt_s (p : prec) (x : Q) : Q :=
   Qred (Qmake (Z.sqrt (tofix x (2 * pP p))) (Z.to_pos (2 ^ pP p))).
 Definition tanh_s (p : prec) (x : Q) : Q :=
   let F := pF p in
+  let x := if Qlt_le_dec (inject_Z 20) x then inject_Z 20 else if Qlt_le_dec x (inject_Z (-20)) then inject_Z (-20) else x in
   let e2 := exp_fix (Qred (Qmult x (inject_Z 2))) F in
   outgrid (((e2 - 2 ^ F) * 2 ^ F) / (e2 + 2 ^ F)) F (pP p).
 
